@@ -212,7 +212,11 @@ SPECIALS = ["\ufeff", "\u2028", "\u2029", "\x85", "\x0b", "\x0c", "\x1c", "\x1d"
             "\ufffe", "\uffff", "\U0010ffff", "\u00a0", "\u200b",
             # strings that are not in Unicode normal form C (a codec must not normalise): decomposed accents, compatibility
             # singletons, conjoining jamo, composition exclusions
-            "e\u0301", "u\u0308", "\u212b", "\u2126", "\u1100\u1161", "\u0958", "a\u0323\u0307", "\ufb01", "\u1e9b\u0323"]
+            "e\u0301", "u\u0308", "\u212b", "\u2126", "\u1100\u1161", "\u0958", "a\u0323\u0307", "\ufb01", "\u1e9b\u0323",
+            # escape sequences of neighbouring syntaxes (RFC 6868 carets, URL and quoted-printable, C and Python escapes, entities,
+            # format directives): in a TEXT value they are plain characters
+            "^n", "^^", "^'", "^", "O(2^n)", "^N", "%0A", "%0D%0A", "%5E", "%25", "=0D=0A", "=\r\n", "\\t", "\\0", "\\x41", "\\u0041", "\\'", '\\"',
+            "&amp;", "&#10;", "&lt;", "{0}", "%s", "%(a)s", "$1", "\\1", "\\g<0>", "${x}"]
 
 
 def _special_cases():
